@@ -30,29 +30,34 @@ def handle1 (o : Op) : String :=
       -- small same-buffer cases run through the ARENA model (`cryptMem`, the harness's buffer geometry:
       -- 0xa5-filled buffer, src at a = max(0,-d), dst at a+d); everything else through the functional
       -- model — `Props.xts_inplace_eq` proves the two agree
-      let viaMem (f E2 : Bytes → Bytes) (d : Int) : String :=
+      let viaMem (f E2 : Bytes → Bytes) (d : Int) : String × Bool :=
         let a := (-d).toNat
         let dOff := (d + (a : Int)).toNat
         let size := a + d.natAbs + src.length + dstLen + 64
         let arena := Mem.wr (List.replicate size (0xa5 : UInt8)) a src
         match cryptMem f E2 arena ⟨dOff, dstLen⟩ ⟨a, src.length⟩ sec with
-        | .panic => "panic"
-        | .ok m => showOut src.length (.ok (Mem.rd m dOff src.length))
+        | .panic => ("panic", true)
+        | .ok m => (showOut src.length (.ok (Mem.rd m dOff src.length)),
+            -- every arena byte outside dst[:len(src)] is unchanged (computed here; `Props.cryptMem_outside`)
+            m.take dOff == arena.take dOff && m.drop (dOff + src.length) == arena.drop (dOff + src.length))
       let run (E1 D1 E2 : Bytes → Bytes) : String :=
         match ovl with
         | some d =>
-          if src.length ≤ 256 then s!"{viaMem E1 E2 d} {viaMem D1 E2 d}"
-          else s!"{showOut src.length (encrypt E1 E2 dstLen ovl src sec)} {showOut src.length (decrypt D1 E2 dstLen ovl src sec)}"
+          if src.length ≤ 256 then
+            let e := viaMem E1 E2 d
+            let dd := viaMem D1 E2 d
+            s!"{e.1} {dd.1} mutated={if e.2 && dd.2 then "none" else "buf"}"
+          else s!"{showOut src.length (encrypt E1 E2 dstLen ovl src sec)} {showOut src.length (decrypt D1 E2 dstLen ovl src sec)} mutated=none"
         | none =>
-          s!"{showOut src.length (encrypt E1 E2 dstLen ovl src sec)} {showOut src.length (decrypt D1 E2 dstLen ovl src sec)}"
+          s!"{showOut src.length (encrypt E1 E2 dstLen ovl src sec)} {showOut src.length (decrypt D1 E2 dstLen ovl src sec)} mutated=none"
       match o.str "ciph" with
       | "toy" =>
-        if !newCipherOk [16] 16 key.length then "err" else
+        if !newCipherOk [16] 16 key.length then "err mutated=none" else
         let k1 := key.take 16; let k2 := key.drop 16
         run (Toy.enc k1) (Toy.dec k1) (Toy.enc k2)
-      | "toy8" => if !newCipherOk [16] 8 key.length then "err" else "bad-op"
+      | "toy8" => if !newCipherOk [16] 8 key.length then "err mutated=none" else "bad-op"
       | "aes" =>
-        if !newCipherOk [16, 24, 32] 16 key.length then "err" else
+        if !newCipherOk [16, 24, 32] 16 key.length then "err mutated=none" else
         match o.hex? "oe1", o.hex? "od1", o.hex? "oe2" with
         | some a, some b, some c => run (lookup (pairs a)) (lookup (pairs b)) (lookup (pairs c))
         | _, _, _ => "bad-op"
